@@ -692,6 +692,11 @@ class Model:
 
     def call_method(self, interp, recv, name: str, args, kwargs, node):
         if isinstance(recv, Unit):
+            if name == 'to_dict' and not args and not kwargs:
+                # the serialised form: exact multiplier, the base units and their powers.  The parts are exact images of the
+                # (possibly symbolic) unit: two units serialise alike iff they are the same power product
+                return {'__version__': 1, 'multiplier': ExactImage('multiplier', recv),
+                        'powers': {ExactImage('bases', recv): ExactImage('exponents', recv)}}
             return Opaque(f'Unit.{name}()')
         if isinstance(recv, BoundModel):
             # e.g. x.bins.concat(), x.coords.get()
@@ -765,6 +770,12 @@ class Model:
         mod, _, name = path.rpartition('.')
         if mod == 'builtins':
             return self._builtin(interp, name, args, kwargs, node)
+        if path == 'json.dumps' and len(args) == 1 and _plain_with_images(args[0]):
+            import json
+            try:
+                return json.dumps(_images_to_text(args[0]), **kwargs)  # the text: exact images print as themselves
+            except (TypeError, ValueError) as ex:
+                raise RaiseSignal(type(ex).__name__, node, interp.where(node), (str(ex),)) from None
         if path == 'types.MappingProxyType' and len(args) == 1 and isinstance(args[0], dict):
             import types
             return types.MappingProxyType(args[0])  # a read-only view of that very dict
@@ -829,8 +840,12 @@ class Model:
         if path == 'operator.methodcaller' and args and isinstance(args[0], str):
             mname, margs, mkw = args[0], list(args[1:]), dict(kwargs)
             return _PyCallable(lambda obj, _n=node: interp.call(interp.getattr(obj, mname, _n), margs, mkw, _n))
-        if path == 'operator.attrgetter' and len(args) == 1 and isinstance(args[0], str) and '.' not in args[0]:
-            return _PyCallable(lambda obj, _n=node, _a=args[0]: interp.getattr(obj, _a, _n))
+        if path == 'operator.attrgetter' and len(args) == 1 and isinstance(args[0], str):
+            def _get(obj, _n=node, _a=args[0]):
+                for part in _a.split('.'):
+                    obj = interp.getattr(obj, part, _n)
+                return obj
+            return _PyCallable(_get)
         if path == 'operator.itemgetter' and len(args) == 1:
             return _PyCallable(lambda obj, _n=node, _k=args[0]: interp.subscript(obj, _k, _n))
         if mod == 'operator' and name in _OPERATOR_BINARY and len(args) == 2 and not kwargs:
@@ -1390,6 +1405,8 @@ class Model:
         if name == 'str':
             if args and isinstance(args[0], str | int | float):
                 return str(args[0])
+            if args and isinstance(args[0], ExactImage | list | tuple | dict) and _plain_with_images(args[0]):
+                return str(args[0])
             return Opaque('str(...)')
         if name in ('ValueError', 'TypeError', 'KeyError', 'RuntimeError', 'NotImplementedError',
                     'Exception', 'IndexError', 'AttributeError'):
@@ -1402,6 +1419,17 @@ class Model:
                     return sorted(seq, reverse=bool(kwargs.get('reverse', False)))
                 except TypeError:
                     return _SortedView(seq, None)
+            # a key function over concrete, mutually comparable keys: the real (stable) order
+            try:
+                keys = [interp.call(key, [x], {}, node) for x in seq]
+            except AnalysisError:
+                keys = None
+            if keys is not None and all(_concrete_sort_key(k) for k in keys):
+                try:
+                    order = sorted(range(len(seq)), key=keys.__getitem__, reverse=bool(kwargs.get('reverse', False)))
+                    return [seq[i] for i in order]
+                except TypeError:
+                    pass
             return _SortedView(seq, key)
         if name in ('all', 'any', 'sum', 'sorted') and args and isinstance(args[0], Opaque):
             return Opaque(f'{name}(⊤)')
@@ -1600,6 +1628,66 @@ _DEFAULT_UNIT = _DefaultUnit()
 class _Partial:
     def __init__(self, fn, args, kwargs):
         self.fn, self.args, self.kwargs = fn, args, kwargs
+
+
+def _concrete_sort_key(k) -> bool:
+    if isinstance(k, bool | int | float | str):
+        return True
+    if isinstance(k, tuple):
+        return all(_concrete_sort_key(x) for x in k)
+    return False
+
+
+class ExactImage:
+    """An exact, hashable image of abstract data (a part of a unit's serialised form and what is computed from it): equal
+    iff built the same way from equal data.  Stands in for the numbers and strings scipp would hand out, for keys of memo tables."""
+
+    __slots__ = ('payload',)
+
+    def __init__(self, *payload):
+        self.payload = payload
+
+    def __eq__(self, o):
+        return isinstance(o, ExactImage) and self.payload == o.payload
+
+    def __ne__(self, o):
+        return not self == o
+
+    def __hash__(self):
+        return hash(('ExactImage', self.payload))
+
+    def __lt__(self, o):
+        return repr(self) < repr(o)
+
+    def __repr__(self):
+        return '‹' + ' '.join(repr(x) if not isinstance(x, str) else x for x in self.payload) + '›'
+
+    def hex(self):
+        return ExactImage('hex', self)
+
+    def __float__(self):
+        raise AnalysisError(f'the number behind {self!r} is not modelled')
+
+
+def _plain_with_images(x) -> bool:
+    """plain Python data whose leaves may be exact images"""
+    if isinstance(x, ExactImage | str | int | float | bool) or x is None:
+        return True
+    if isinstance(x, list | tuple | set | frozenset):
+        return all(_plain_with_images(y) for y in x)
+    if isinstance(x, dict):
+        return all(_plain_with_images(k) and _plain_with_images(v) for k, v in x.items())
+    return False
+
+
+def _images_to_text(x):
+    if isinstance(x, ExactImage):
+        return repr(x)
+    if isinstance(x, list | tuple):
+        return [_images_to_text(y) for y in x]
+    if isinstance(x, dict):
+        return {(_images_to_text(k) if isinstance(k, ExactImage) else k): _images_to_text(v) for k, v in x.items()}
+    return x
 
 
 class _SortedView:
